@@ -1,5 +1,6 @@
 import DdsProofs.EvalLemmas
 import DdsProofs.Memo
+import DdsProofs.History
 /-!
 # C10 — a failing user function is never cached and leaves dds and the store clean
 
@@ -62,15 +63,18 @@ theorem failing_call_not_stored (requested : List (String × Sg)) (rec : RunRec)
     keepExec requested rec st path g env = (.error e, st') := by
   simp [keepExec, hk, hn, hr]
 
-/-- after any history, an evaluation fails **iff** plain execution of the current code fails, with the same exception -/
-theorem failure_is_plain (U : Universe) (m x : Nat) (noop : Bool) (hist : List HStep) (hok : ∀ s ∈ hist, s.ok U x)
-    (W : World) (rq : Request) (hW : U.world W) (hx : W.extVersion = x) (hrq : U.request rq)
-    (fn : Fn) (env : Env) (fis : FIS) (paths : List (String × Sg))
-    (ha : analysisPhase m W (runHistory m { noop := noop } hist) rq = .ok (fn, env, fis, paths))
-    (hs : Stage.eval ∈ rq.stages) (p : PSt) (e : XErr) :
-    (evalStep m W (runHistory m { noop := noop } hist) rq).value = .error e ↔ (plainFn W W.fuel p fn env).1 = .error e := by
-  rw [history_correct U m x noop hist hok W rq hW hx hrq fn env fis paths ha hs p]
-  cases (plainFn W W.fuel p fn env).1 with
+/-- after any history, an evaluation fails **iff** plain execution of the current code (from the values kept so far)
+fails, with the same exception -/
+theorem failure_is_plain (U : Universe) (m x : Nat) (noop : Bool) (hist : List HStep)
+    (hok : histOK U m x { store := { noop := noop }, kept := [] } hist)
+    (W : World) (rq : Request) (E : EvalCtx U x W) (hrq : U.request rq)
+    {fn : Fn} {env : Env} {fis : FIS} {paths : List (String × Sg)}
+    (ha : analysisPhase m W (runHist m { store := { noop := noop }, kept := [] } hist).store rq = .ok (fn, env, fis, paths))
+    (hext : ∀ p ∈ fis.allLoads, External paths p) (hs : Stage.eval ∈ rq.stages) (e : XErr) :
+    (evalStep m W (runHist m { store := { noop := noop }, kept := [] } hist).store rq).value = .error e ↔
+      (plainFn W W.fuel { kept := (runHist m { store := { noop := noop }, kept := [] } hist).kept } fn env).1 = .error e := by
+  rw [history_value U m x noop hist hok W rq E hrq ha hext hs]
+  cases (plainFn W W.fuel { kept := (runHist m { store := { noop := noop }, kept := [] } hist).kept } fn env).1 with
   | ok v => simp [Except.map]
   | error e' => simp [Except.map]
 
